@@ -435,7 +435,7 @@ Qed.
 Lemma last_agrank_last h a y b acc :
   f_inst y = h -> (forall z, In z b -> f_inst z <> h) -> last_agrank h (a ++ y :: b) acc = f_agrank y.
 Proof.
-  intros Hy Hb. rewrite last_agrank_app. cbn [last_agrank]. rewrite <- Hy at 1. rewrite Z.eqb_refl.
+  intros Hy Hb. subst h. rewrite last_agrank_app. cbn [last_agrank]. rewrite Z.eqb_refl.
   now apply last_agrank_none.
 Qed.
 
@@ -458,14 +458,15 @@ Lemma filter_of_h_ext h a b : map f_inst a = map f_inst b ->
   length (filter (of_h h) a) = length (filter (of_h h) b).
 Proof.
   revert b. induction a as [|x t IH]; intros [|y u] E; try discriminate; [reflexivity|].
-  cbn [map] in E. injection E as Ex Et. cbn [filter]. unfold of_h at 1 3. rewrite Ex.
-  destruct (f_inst y =? h); cbn [length]; now rewrite (IH u Et).
+  cbn [map] in E. injection E as Ex Et. cbn [filter].
+  assert (Eo : of_h h x = of_h h y) by (unfold of_h; now rewrite Ex). rewrite Eo.
+  destruct (of_h h y); cbn [length]; [f_equal|]; apply IH; exact Et.
 Qed.
 
 (* position-wise view of fill_ranks *)
 Lemma fill_ranks_split all : forall l1 c x l2,
   fill_ranks all c = l1 ++ x :: l2 ->
-  exists c1 x0 c2, c = c1 ++ x0 :: c2 /\ l1 = fill_ranks all c1 /\ l2 = fill_ranks all c2 /\
+  exists c1 x0 c2, c = c1 ++ x0 :: c2 /\ l2 = fill_ranks all c2 /\
     f_inst x = f_inst x0 /\ f_agrank x = f_agrank x0 /\
     f_srank x = later_same (f_inst x0) c2 /\ f_grank x = f_agrank x0 - last_agrank (f_inst x0) all 0.
 Proof.
@@ -473,8 +474,8 @@ Proof.
   - destruct c as [|x0 c2]; [discriminate|]. cbn [fill_ranks app] in H. injection H as Hx Hl.
     exists [], x0, c2. subst x. cbn [f_inst f_agrank f_srank f_grank app fill_ranks]. repeat split. now symmetry.
   - destruct c as [|z0 c']; [discriminate|]. cbn [fill_ranks app] in H. injection H as Hz Hl.
-    destruct (IH c' x l2 Hl) as (c1 & x0 & c2 & Hc & H1 & H2 & H3). exists (z0 :: c1), x0, c2.
-    cbn [app fill_ranks]. rewrite Hc, <- H1, Hz. repeat split; try tauto.
+    destruct (IH c' x l2 Hl) as (c1 & x0 & c2 & Hc & H3). exists (z0 :: c1), x0, c2.
+    cbn [app]. rewrite Hc. split; [reflexivity|exact H3].
 Qed.
 
 (* The ranks of a collection built by fill_ranks from infos whose absolute_generation_rank is
@@ -510,15 +511,15 @@ Proof.
   set (c := map (info_at r) (collected r max m hsel)) in *.
   assert (Hx : agrank_ok r x) by (rewrite Forall_forall in Hag; apply Hag; rewrite Hl; apply in_elt).
   rewrite Hl in E. symmetry in E.
-  destruct (fill_ranks_split c l1 c x l2 E) as (c1 & x0 & c2 & Hc & H1 & H2 & Hi & Ha & Hs & Hg).
+  destruct (fill_ranks_split c l1 c x l2 E) as (c1 & x0 & c2 & Hc & H2 & Hi & Ha & Hs & Hg).
   split; [|split; [|exact Hx]].
-  - rewrite Hs, later_same_filter, <- Hi, H2. f_equal. f_equal. symmetry. apply filter_of_h_ext.
+  - rewrite Hs, later_same_filter, <- Hi, H2. apply f_equal. symmetry. apply filter_of_h_ext.
     apply (fill_ranks_keeps c c2).
   - intros a y b Hl' Hy Hb.
     assert (Hyok : agrank_ok r y) by (rewrite Forall_forall in Hag; apply Hag; rewrite Hl'; apply in_elt).
     destruct (fill_ranks_keeps c c) as (K1 & K2 & _ & _).
     rewrite Hg, <- Ha, <- Hi.
-    rewrite <- (last_agrank_ext (f_inst x) (fill_ranks c c) c K1 K2 0). rewrite <- E, <- Hl, Hl'.
+    rewrite <- (last_agrank_ext (f_inst x) (fill_ranks c c) c K1 K2 0). rewrite E, <- Hl, Hl'.
     rewrite (last_agrank_last (f_inst x) a y b 0 Hy Hb).
     destruct Hx as (i & Hfi & Hxa). destruct Hyok as (j & Hfj & Hya). rewrite Hy, Hfi in Hfj. injection Hfj as <-.
     rewrite Hxa, Hya. lia.
